@@ -50,6 +50,10 @@ func (i *ipfsAccessController) CanAppend(entry logac.LogEntry, p identityprovide
 	key := identity.ID
 	for _, allowedKey := range i.writeAccess {
 		if allowedKey == key || allowedKey == "*" {
+			if err := accesscontroller.VerifyEntryIdentity(entry, p); err != nil {
+				return err
+			}
+
 			return p.VerifyIdentity(identity)
 		}
 	}
